@@ -123,10 +123,14 @@ impl Method for PhoneticMethod {
     fn candidate_committed(&mut self, index: usize, config: &Config) {
         // Check if user has selected a different suggestion
         if self.prev_selection != index && config.get_phonetic_suggestion() {
-            let suggestion =
-                SplittedString::split(self.suggestion.suggestions[index].to_string(), true)
-                    .word()
-                    .to_string();
+            // The candidate may be wrapped by the smart quotes which we have converted from
+            // the typed quotation marks, turn them back to let them be stripped with the
+            // other meta characters.
+            let candidate = self.suggestion.suggestions[index]
+                .to_string()
+                .replace(&['‘', '’'][..], "'")
+                .replace(&['“', '”'][..], "\"");
+            let suggestion = SplittedString::split(&candidate, true).word().to_string();
             self.selections.insert(
                 SplittedString::split(&self.buffer, false)
                     .word()
